@@ -278,3 +278,8 @@ type Replay struct {
 	Original json.RawMessage `json:"original_plan,omitempty"`
 	Trace    []string        `json:"trace,omitempty"`
 }
+
+func sha256Hex(b []byte) string {
+	h := sha256.Sum256(b)
+	return hex.EncodeToString(h[:8])
+}
